@@ -229,7 +229,8 @@ def replay_source(src):
 
 BODY_TOKENS = {
     'a1': "v1 = aa + 1", 'a2': "v2 = mathMax(v1, bb)", 'a3': "v1 = mathMax(v1, v2)", 'a4': "v3 = extra * 2", 'a5': "v2 = mathMax(v2, v3)",
-    'e1': "tt(v1)", 'e2': "v1", 'e3': "1 + bb", 'l1': "lx:", 'j1': "jumpif (aa) lx", 'r1': "return v2", 'r2': "return arrayNew(v1, v3)",
+    'e1': "tt(v1)", 'e2': "v1", 'e3': "1 + bb", 'e4': "tt(bb) == 1", 'e5': "!(tt(aa) < 2) && bb", 'a6': "aa = 0", 'j2': "jumpif (bb) ly", 'l2': "ly:",
+    'r3': "return aa", 'l1': "lx:", 'j1': "jumpif (aa) lx", 'r1': "return v2", 'r2': "return arrayNew(v1, v3)",
 }
 JUST_UNUSED_VAR = re.compile(r'^Unused variable "(.*)" defined in function "(.*)" \(index (\d+)\)$')
 JUST_UNUSED_ARG = re.compile(r'^Unused argument "(.*)" of function "(.*)" \(index (\d+)\)$')
